@@ -1,5 +1,86 @@
 (* Property theorems for C01 -- statements only; proofs are `exact` of lemmas. *)
 From Coq Require Import ZArith List.
-From GD Require Import C06.Convert C01.Field C01.Read C01.Inst C01.Exec.
+From GD Require Import C06.Convert C01.Field C01.Read C01.Inst C01.ReadProofs C01.Witness C01.WitnessProofs.
 Import ListNotations.
 Local Open Scope Z_scope.
+
+(* The full statement (kept visible):
+   read_matches_spec_statement :=
+     forall A db f rt s n, wf db f -> 0 <= s -> 0 <= n ->
+       impl_read A db rt f s n = Some (spec_window A db rt f s n).
+   It is false of the unchanged code. *)
+Theorem read_matches_spec_refuted : ~ read_matches_spec_statement.
+Proof. exact statement_refuted. Qed.
+
+(* On the covered region -- every field type, any nesting depth, any sample
+   rates, any window, any value algebra -- gd_getdata returns exactly the
+   window the Standards define (count and every value). *)
+Theorem read_matches_spec_partial :
+  forall (A : Alg) (db : database) (f : field) (rt : ctype) (s n : Z),
+    wf db f -> 0 <= n -> covered A db rt f s n ->
+    impl_read A db rt f s n = Some (spec_window A db rt f s n).
+Proof. exact read_ok. Qed.
+
+(* the returned count ends exactly at the end-of-field *)
+Theorem read_count_partial :
+  forall (A : Alg) (db : database) (f : field) (rt : ctype) (s n : Z),
+    wf db f -> 0 <= n -> covered A db rt f s n ->
+    read_count A db rt f s n = Some (spec_count db f s n).
+Proof. exact read_count_ok. Qed.
+
+(* sample i of the result is the documented value of absolute sample s+i *)
+Theorem read_sample_partial :
+  forall (A : Alg) (db : database) (f : field) (rt : ctype) (s n i : Z),
+    wf db f -> 0 <= n -> covered A db rt f s n -> 0 <= i < spec_count db f s n ->
+    option_map (fun l => nthZ l i (garbage A)) (impl_read A db rt f s n)
+    = Some (spec_val A db rt f (s + i)).
+Proof. exact read_sample_ok. Qed.
+
+(* below the end-of-field the documented formula only uses input samples below
+   the inputs' ends *)
+Theorem spec_inputs_below_eof :
+  forall e1 e2 s1 s2 k, 0 < s1 -> 0 < s2 ->
+    elt k (emin e1 (escale e2 s1 s2)) -> elt k e1 /\ elt (k * s2 / s1) e2.
+Proof. exact spec_inputs_exist. Qed.
+
+(* the excluded regions are inhabited by failures of the unchanged code *)
+Theorem unaligned_start_witness :
+  impl_read XAlg db_ab F64 m_ab 1 4 =
+    Some [XV 4626322717216342016; XV 4629137466983448576; XV 4635329916471083008; XV 4636737291354636288] /\
+  spec_window XAlg db_ab F64 m_ab 1 4 =
+    [XV 4626322717216342016; XV 4633641066610819072; XV 4635329916471083008; XV 4639481672377565184] /\
+  uncovered XAlg db_ab F64 m_ab 1 4 = [TUnaligned].
+Proof. exact witness_unaligned. Qed.
+
+Theorem second_input_empty_witness :
+  impl_read XAlg db_short F64 m_ab 5 4 = Some [XU; XU; XU; XU] /\
+  spec_window XAlg db_short F64 m_ab 5 4 = [] /\
+  uncovered XAlg db_short F64 m_ab 5 4 = [TEmpty2].
+Proof. exact witness_second_empty. Qed.
+
+Theorem lincom_count_witness :
+  option_map (@length _) (impl_read XAlg db_ab F64 l_ab 0 1) = Some 2%nat /\
+  length (spec_window XAlg db_ab F64 l_ab 0 1) = 1%nat /\
+  uncovered XAlg db_ab F64 l_ab 0 1 = [TLincomRate].
+Proof. exact witness_lincom_inflation. Qed.
+
+Theorem raw_before_zero_witness :
+  impl_read XAlg db_ab F64 p_m5 0 2 = None /\
+  length (spec_window XAlg db_ab F64 p_m5 0 2) = 2%nat /\
+  uncovered XAlg db_ab F64 p_m5 0 2 = [TRawNeg].
+Proof. exact witness_raw_before_zero. Qed.
+
+Theorem raw_pad_witness :
+  impl_read XAlg db_fo F64 a 2 4 =
+    Some [XV 0; XV 0; XV 4607182418800017408; XV 4611686018427387904] /\
+  spec_window XAlg db_fo F64 a 2 4 =
+    [XV 9221120237041090560; XV 9221120237041090560; XV 4607182418800017408; XV 4611686018427387904] /\
+  uncovered XAlg db_fo F64 a 2 4 = [TRawPad].
+Proof. exact witness_raw_pad. Qed.
+
+(* the hypotheses of the partial theorems are satisfiable (two rates, aligned start) *)
+Example covered_is_inhabited :
+  wf db_ab m_ab /\ covered XAlg db_ab F64 m_ab 2 4 /\
+  impl_read XAlg db_ab F64 m_ab 2 4 =
+    Some [XV 4633641066610819072; XV 4635329916471083008; XV 4639481672377565184; XV 4640537203540230144].
+Proof. exact covered_example. Qed.
